@@ -762,7 +762,7 @@ VSlone(HFILEID f,       /* IN: file id */
     int32  ret_value = SUCCEED;
 
     /* -- allocate local space for vdata refs, init to zeros -- */
-    if (NULL == (lonevdata = (uint8 *)calloc(MAX_REF, sizeof(uint8))))
+    if (NULL == (lonevdata = (uint8 *)calloc((size_t)MAX_REF + 1, sizeof(uint8))))
         HGOTO_ERROR(DFE_NOSPACE, FAIL);
 
     /* -- look for all vdatas in the file, and flag (1) each -- */
@@ -785,7 +785,7 @@ VSlone(HFILEID f,       /* IN: file id */
 
     /* -- check in lonevdata: it's a lone vdata if its flag is still 1 -- */
     nlone = 0;
-    for (i = 0; i < (int32)MAX_REF; i++) {
+    for (i = 0; i <= (int32)MAX_REF; i++) { /* reference numbers run up to MAX_REF inclusive */
         if (lonevdata[i]) { /* insert into idarray up till asize */
             if (nlone < asize)
                 idarray[nlone] = i; /* insert ref of vdata into idarray */
@@ -829,7 +829,7 @@ Vlone(HFILEID f,       /* IN: file id */
     int32  ret_value = SUCCEED;
 
     /* -- allocate space for vgroup refs, init to zeroes -- */
-    if (NULL == (lonevg = (uint8 *)calloc(MAX_REF, sizeof(uint8))))
+    if (NULL == (lonevg = (uint8 *)calloc((size_t)MAX_REF + 1, sizeof(uint8))))
         HGOTO_ERROR(DFE_NOSPACE, FAIL);
 
     /* -- look for all vgroups in the file, and flag (1) each -- */
@@ -853,7 +853,7 @@ Vlone(HFILEID f,       /* IN: file id */
 
     /* -- check in lonevg: it's a lone vgroup if its flag is still 1 -- */
     nlone = 0;
-    for (i = 0; i < (int32)MAX_REF; i++) {
+    for (i = 0; i <= (int32)MAX_REF; i++) { /* reference numbers run up to MAX_REF inclusive */
         if (lonevg[i]) { /* insert into idarray up till asize */
             if (nlone < asize)
                 idarray[nlone] = i; /* insert ref of vgroup into idarray */
